@@ -10,9 +10,11 @@ package c01
 import (
 	"bytes"
 	"context"
+	"encoding/json"
 	"fmt"
 	"io"
 	"net/http/httptest"
+	"reflect"
 	"strings"
 	"sync"
 	"time"
@@ -29,9 +31,16 @@ func (K) Tag(ctx context.Context, who string, seq int, pad []int) (string, error
 }
 func (K) Pair(a, b string) (string, error) { return a + "|" + b, nil }
 
+// SlowTok is decoded by a custom param decoder that takes its time: the window between "the first param
+// is decoded" and "the handler is invoked" is then wide enough for another call of the same method.
+type SlowTok string
+
+func (K) Slow(a int, s SlowTok) (string, error) { return fmt.Sprintf("%d|%s", a, string(s)), nil }
+
 type KClient struct {
 	Tag  func(ctx context.Context, who string, seq int, pad []int) (string, error)
 	Pair func(a, b string) (string, error)
+	Slow func(a int, s SlowTok) (string, error)
 }
 
 func RunConcurrent(res *fw.Result, seed int64, thorough bool) error {
@@ -40,7 +49,14 @@ func RunConcurrent(res *fw.Result, seed int64, thorough bool) error {
 		workers, calls = 24, 600
 	}
 	for _, tr := range []string{"custom", "http", "ws"} {
-		srv := jsonrpc.NewServer()
+		srv := jsonrpc.NewServer(jsonrpc.WithParamDecoder(new(SlowTok), func(ctx context.Context, b []byte) (reflect.Value, error) {
+			var str string
+			if err := json.Unmarshal(b, &str); err != nil {
+				return reflect.Value{}, err
+			}
+			time.Sleep(150 * time.Microsecond)
+			return reflect.ValueOf(SlowTok(str)), nil
+		}))
 		srv.Register("K", K{})
 		var cl KClient
 		var closer jsonrpc.ClientCloser
@@ -76,7 +92,10 @@ func RunConcurrent(res *fw.Result, seed int64, thorough bool) error {
 				for k := 0; k < calls; k++ {
 					var got, want string
 					var err error
-					if k%2 == 0 {
+					if k%3 == 2 {
+						want = fmt.Sprintf("%d|%s", w*100000+k, who)
+						got, err = cl.Slow(w*100000+k, SlowTok(who))
+					} else if k%2 == 0 {
 						want = fmt.Sprintf("%s/%06d/%d", who, k, w%5)
 						got, err = cl.Tag(context.Background(), who, k, make([]int, w%5))
 					} else {
